@@ -30,15 +30,16 @@ Old1 == {[kid |-> "k0", key |-> "A0", exp |-> -48]}
 Old2 == {[kid |-> "k1", key |-> "A1", exp |-> -48]}     \* the ID of a current key listed as an old key too
 OldR == {[kid |-> "rsa", key |-> "R", exp |-> -48]}     \* an old key of another algorithm
 
-Resp(name, vu, vk, old, nsig) == [name |-> name, vu |-> vu, vkeys |-> vk, old |-> old, nsig |-> nsig]
+Resp(name, vu, vk, old, nsig) == [name |-> name, vu |-> vu, vkeys |-> vk, old |-> old, nsig |-> nsig, dup |-> NoDup]
 Dummy == Resp("s1", 24, V1, Old0, "none")
 NoD == [kind |-> "error", r |-> Dummy]
 EmptyD == [kind |-> "empty", r |-> Dummy]               \* the client hands back a zero ServerKeys and no error
 NoN == [kind |-> "error", rs |-> <<>>]
 Other(s) == IF s = "s1" THEN "s2" ELSE "s1"
 
+NoQ == [kid |-> "k1", by |-> "A1", ts |-> -48]
 Base == [mode |-> "check", expected |-> "s1", now |-> 0, r |-> Dummy, kid |-> "k1", ts |-> 0,
-         srv2 |-> FALSE, local |-> FALSE, d |-> NoD, n |-> NoN, p |-> NoN]
+         srv2 |-> FALSE, local |-> FALSE, d |-> NoD, n |-> NoN, p |-> NoN, via |-> "direct", q |-> NoQ]
 
 ScCheck ==
     {[Base EXCEPT !.mode = "check", !.expected = e, !.r = Resp("s1", vu, vk, old, "none")] :
@@ -89,8 +90,60 @@ ScPersp ==
                         b \in (IF Tier = "quick" THEN {r \in PerspResps("s2") : r.old = Old0 /\ r.vkeys = V1}
                                ELSE PerspResps("s2"))}}
 
+\* ---- one response that writes a top-level member twice
+Dp(m, pos, c) == [m |-> m, pos |-> pos, c |-> c]
+Poss == {"before", "after"}
+DupKinds ==
+    {Dp("verify_keys", pos, c) : pos \in Poss, c \in {"evil", "evilnosig", "sameid", "empty"}}
+    \cup {Dp("old_verify_keys", pos, c) : pos \in Poss, c \in {"evil", "sameid", "empty"}}
+    \cup {Dp("server_name", pos, "other") : pos \in Poss}
+    \cup {Dp("valid_until_ts", pos, c) : pos \in Poss, c \in {"future", "past"}}
+    \cup {Dp("signatures", pos, "attacker") : pos \in Poss}
+WithDup(r, dp) == [r EXCEPT !.dup = dp]
+\* the genuine responses the relay works on: one or two current keys, with and without an old key
+\* (thorough: also next to a key of another algorithm, and with an ID listed as current and old)
+DupResps(s, vus, nsigs) == {WithDup(Resp(s, vu, vk, old, ns), dp) :
+                                vu \in vus, vk \in (IF Tier = "quick" THEN {V1, V5} ELSE {V1, V5, V8}),
+                                old \in (IF Tier = "quick" THEN {Old0, Old1} ELSE {Old0, Old1, Old2}),
+                                ns \in nsigs, dp \in DupKinds}
+DupRespsV1(s, ns) == {x \in DupResps(s, {24}, {ns}) : x.vkeys = V1}
+PlainGood == Resp("s1", 24, V5, Old0, "none")
+
+ScDupCheck ==
+    {[Base EXCEPT !.mode = "dupcheck", !.expected = e, !.r = x] :
+        e \in {"s1", "s2"}, x \in DupResps("s1", {-24, 24}, {"none"})}
+ScDupCheckPruned == {s \in ScDupCheck : s.expected = "s1" \/ s.r.dup.m = "server_name"}
+
+ScDupDirect ==
+    \* the server's own answer tampered with on the way
+    {[Base EXCEPT !.mode = "dupdirect", !.d = [kind |-> "resp", r |-> x], !.n = n] :
+        x \in DupResps("s1", {24}, {"none"}), n \in {NoN, [kind |-> "list", rs |-> <<PlainGood>>]}}
+    \cup  \* the fallback (a notary's list) tampered with
+    {[Base EXCEPT !.mode = "dupdirect", !.d = d, !.n = [kind |-> "list", rs |-> rs]] :
+        d \in {NoD, [kind |-> "resp", r |-> Resp("s1", 24, V2, Old0, "none")]},
+        rs \in UNION {{<<x>>, <<Resp("s2", 24, V1, Old0, "none"), x>>, <<x, PlainGood>>} : x \in DupRespsV1("s1", "none")}}
+
+S2Signed == Resp("s2", 24, V1, Old0, "good")
+ScDupPersp ==
+    {[Base EXCEPT !.mode = "duppersp", !.p = [kind |-> "list", rs |-> rs]] :
+        rs \in UNION {{<<x>>, <<x, S2Signed>>, <<S2Signed, x>>} :
+                        x \in DupResps("s1", {24}, {"good"}) \cup {y \in DupRespsV1("s1", "none") : y.old = Old0}}}
+
+\* end to end: what a message is signed with and for when
+Asks == {[kid |-> "k1", by |-> "A1", ts |-> -48], [kid |-> "kx", by |-> "X", ts |-> -48],
+         [kid |-> "k0", by |-> "X", ts |-> -48], [kid |-> "k1", by |-> "X", ts |-> -48],
+         [kid |-> "k0", by |-> "A0", ts |-> -72]}
+ScDupRing ==
+    {[Base EXCEPT !.mode = "dupring", !.via = "direct", !.d = [kind |-> "resp", r |-> x], !.q = q] :
+        x \in DupRespsV1("s1", "none"), q \in Asks}
+    \cup
+    {[Base EXCEPT !.mode = "dupring", !.via = "persp", !.p = [kind |-> "list", rs |-> <<x>>], !.q = q] :
+        x \in DupRespsV1("s1", "good"), q \in Asks}
+
+DupModes == {"dupcheck", "dupdirect", "duppersp", "dupring"}
 Scenarios == (IF "check" \in Modes THEN ScCheck ELSE {}) \cup (IF "pubkey" \in Modes THEN ScPubKey ELSE {})
              \cup (IF "direct" \in Modes THEN ScDirect ELSE {}) \cup (IF "persp" \in Modes THEN ScPersp ELSE {})
+             \cup (IF "dup" \in Modes THEN ScDupCheckPruned \cup ScDupDirect \cup ScDupPersp \cup ScDupRing ELSE {})
 
 \* what the caller of the fetcher gets: a table key name -> entry
 S2Good == Resp("s2", 24, V1, Old0, "none")
@@ -103,9 +156,34 @@ DirectCalls(s) ==
     {[op |-> "get", srv |-> "s1"]} \cup (IF DirectAsksNotary("s1", s.now, s.d) THEN {[op |-> "lookup", srv |-> "s1"]} ELSE {})
     \cup (IF s.srv2 THEN {[op |-> "get", srv |-> "s2"]} ELSE {})
 
-NoOut == [tab |-> <<>>, calls |-> {}, key |-> "-", checks |-> Checks("s1", 0, Dummy), keys |-> {}]
+\* ---- a member written twice: one outcome per thing an implementation may do with such a response
+PolSeq == <<"lastwins", "refuse", "drop">>
+Seen(pol, s) == [s EXCEPT !.r = View(pol, s.r), !.d = ViewD(pol, s.d), !.n = ViewL(pol, s.n), !.p = ViewL(pol, s.p)]
+DupTab(s) == IF s.mode = "dupdirect" \/ (s.mode = "dupring" /\ s.via = "direct") THEN DirectWant(s)
+             ELSE Perspective(s.now, s.p)
+\* KeyRing over an empty database and this one fetcher, strict validity, the instant well before now: the
+\* message verifies iff the fetcher supplied the signing key under that ID and the instant lies before its
+\* expired_ts (an old key) or at or before its valid_until_ts (a current one)
+RingVerdict(tab, q) ==
+    LET kn == KN("s1", q.kid) IN
+    IF kn \in DOMAIN tab /\ tab[kn].key = q.by
+          /\ (IF tab[kn].exp # NoTS THEN q.ts < tab[kn].exp ELSE tab[kn].vu # NoTS /\ q.ts <= tab[kn].vu)
+    THEN "ok" ELSE "fail"
+NoAlt == [pol |-> "-", tab |-> <<>>, calls |-> {}, checks |-> Checks("s1", 0, Dummy), keys |-> {}, res |-> "-"]
+AltFor(pol, s0) ==
+    LET s == Seen(pol, s0) IN
+    CASE s.mode = "dupcheck" ->
+            \* "drop": the response does not decode, there is nothing to check
+            [NoAlt EXCEPT !.pol = pol, !.checks = Checks(s.expected, s.now, s.r), !.keys = CheckedKeys(s.expected, s.now, s.r)]
+      [] s.mode = "dupdirect" -> [NoAlt EXCEPT !.pol = pol, !.tab = DupTab(s), !.calls = DirectCalls(s)]
+      [] s.mode = "duppersp"  -> [NoAlt EXCEPT !.pol = pol, !.tab = DupTab(s)]
+      [] OTHER                -> [NoAlt EXCEPT !.pol = pol, !.tab = DupTab(s), !.res = RingVerdict(DupTab(s), s.q)]
+Alts(s) == [i \in DOMAIN PolSeq |-> AltFor(PolSeq[i], s)]
+
+NoOut == [tab |-> <<>>, calls |-> {}, key |-> "-", checks |-> Checks("s1", 0, Dummy), keys |-> {}, alts |-> <<>>]
 Outcome(s) ==
-    CASE s.mode = "check"  -> [NoOut EXCEPT !.checks = Checks(s.expected, s.now, s.r),
+    CASE s.mode \in DupModes -> [NoOut EXCEPT !.alts = Alts(s)]
+      [] s.mode = "check"  -> [NoOut EXCEPT !.checks = Checks(s.expected, s.now, s.r),
                                            !.keys = CheckedKeys(s.expected, s.now, s.r)]
       [] s.mode = "pubkey" -> [NoOut EXCEPT !.key = PublicKeyAt(s.r, s.kid, s.ts)]
       [] s.mode = "direct" -> [NoOut EXCEPT !.tab = DirectWant(s), !.calls = DirectCalls(s)]
@@ -127,9 +205,49 @@ SanePubKey == (phase = "done" /\ sc.mode = "pubkey" /\ out.key # "-") =>
                 \/ (sc.kid \in Kids(sc.r.vkeys) /\ sc.ts <= sc.r.vu)
                 \/ (\E o \in sc.r.old : o.kid = sc.kid /\ sc.ts < o.exp)
 
+\* ---- the property for a member written twice, stated over the scenario and the outcomes only: whatever
+\* the implementation does with such a response, every key (and validity) handed out is what the reading
+\* covered by the signatures of some response of the scenario says, that response being acceptable so read
+RespsOf(s) == (IF s.d.kind = "resp" THEN {s.d.r} ELSE {}) \cup (IF s.n.kind = "list" THEN {s.n.rs[i] : i \in DOMAIN s.n.rs} ELSE {})
+              \cup (IF s.p.kind = "list" THEN {s.p.rs[i] : i \in DOMAIN s.p.rs} ELSE {})
+ViaNotary(s) == s.mode = "duppersp" \/ (s.mode = "dupring" /\ s.via = "persp")
+DupOnlySigned == (phase = "done" /\ sc.mode \in {"dupdirect", "duppersp", "dupring"}) =>
+    \A i \in DOMAIN out.alts : OnlyWhatIsSigned(out.alts[i].tab, "s1", sc.now, RespsOf(sc), ViaNotary(sc))
+DupCheckOnlySigned == (phase = "done" /\ sc.mode = "dupcheck") =>
+    \A i \in DOMAIN out.alts :
+        /\ out.alts[i].keys \in {{}, CheckedKeys(sc.expected, sc.now, Reading(sc.r))}
+        /\ out.alts[i].checks.all => Accepts(sc.expected, sc.now, Reading(sc.r))
+\* consequences: the notary never signed anything of the relay's, so the relay's key never comes out of a
+\* notary's answer; directly, only a response that lists it as a current key in its last copy and carries
+\* its signature yields it (that is a self-signed response of the relay's own: nothing a direct fetch can
+\* tell from the server's); a message verifies only with a key that was handed out
+DupSane == (phase = "done" /\ sc.mode \in DupModes) =>
+    \A i \in DOMAIN out.alts :
+        LET a == out.alts[i] IN
+        /\ (\E kn \in DOMAIN a.tab : a.tab[kn].key = "X") =>
+                (~ViaNotary(sc) /\ \E r \in RespsOf(sc) : r.dup = Dp("verify_keys", "after", "evil"))
+        /\ (a.res = "ok" => KN("s1", sc.q.kid) \in DOMAIN a.tab)
+        /\ (a.pol # "lastwins" /\ sc.mode # "dupcheck" =>
+                \A kn \in DOMAIN a.tab : \E r \in RespsOf(sc) : r.dup.m = "none" /\ kn \in DOMAIN Named(r.name, KeysOf(r)))
+\* the scenarios tell the one reading from a decoder that unites the copies (checked once, at start-up)
+DupTeeth ==
+    /\ \E x \in DupResps("s1", {24}, {"good"}) :
+            ViaNotaryOK(0, Merged(x)) /\ ViaNotaryOK(0, Reading(x)) /\ KeysOf(Merged(x)) # KeysOf(Reading(x))
+    /\ \E x \in DupResps("s1", {24}, {"none"}) :
+            Accepts("s1", 0, Merged(x)) /\ Accepts("s1", 0, Reading(x)) /\ KeysOf(Merged(x)) # KeysOf(Reading(x))
+ASSUME "dup" \notin Modes \/ DupTeeth
+
+EmitAlts == [i \in DOMAIN out.alts |->
+                [pol |-> out.alts[i].pol, tab |-> out.alts[i].tab, calls |-> out.alts[i].calls,
+                 all |-> out.alts[i].checks.all, keys |-> out.alts[i].keys, res |-> out.alts[i].res]]
 Emit == phase = "done" =>
     PrintT(ToJson(
-        CASE sc.mode = "check"  -> [mode |-> "check", expected |-> sc.expected, now |-> sc.now, r |-> sc.r,
+        CASE sc.mode = "dupcheck" -> [mode |-> sc.mode, expected |-> sc.expected, now |-> sc.now, r |-> sc.r,
+                                      checks |-> out.alts[1].checks, alts |-> EmitAlts]
+          [] sc.mode = "dupdirect" -> [mode |-> sc.mode, d |-> sc.d, n |-> sc.n, alts |-> EmitAlts]
+          [] sc.mode = "duppersp" -> [mode |-> sc.mode, p |-> sc.p, alts |-> EmitAlts]
+          [] sc.mode = "dupring" -> [mode |-> sc.mode, via |-> sc.via, d |-> sc.d, p |-> sc.p, q |-> sc.q, alts |-> EmitAlts]
+          [] sc.mode = "check"  -> [mode |-> "check", expected |-> sc.expected, now |-> sc.now, r |-> sc.r,
                                     checks |-> out.checks, keys |-> out.keys]
           [] sc.mode = "pubkey" -> [mode |-> "pubkey", r |-> sc.r, kid |-> sc.kid, ts |-> sc.ts, key |-> out.key]
           [] sc.mode = "direct" -> [mode |-> "direct", d |-> sc.d, n |-> sc.n, srv2 |-> sc.srv2, local |-> sc.local,
